@@ -25,12 +25,18 @@ RULE = (
     "repeated and overlapping calls with one cache. Generated kernels (Gen/BBoxKernels.lean, translated from the AST of "
     "math/bbox.py, _bezier4p.py, _bezier3p.py on every run) are proved equal to the hand model for all inputs. "
     "non-trivial = at least one operand has data (X1), t strictly inside (0,1) (X2), a cache is in use (X3); distinct by "
-    "hash of the request line. oracle: ezdxf.bbox.extents/multi_flat/multi_recursive (fast on/off, cache none/fresh/warm/"
-    "uuid) on generated documents with LINE, POINT, CIRCLE, ARC, ELLIPSE, LWPOLYLINE with bulges, SPLINE, SOLID, "
-    "POLYLINE and nested INSERTs (translation, non-uniform/negative scale, rotation, tilted extrusions) against points "
-    "sampled by an independent implementation of the entity geometry and of the block transformation: containment and "
-    "tightness within the documented flattening distance 0.01, fast >= precise, cache transparency (exact), "
-    "multi_flat/multi_recursive/extents consistency (exact), path.bbox/precise_bbox/cubic_bezier_bbox vs dense sampling."
+    "hash of the request line. oracle O1: ezdxf.bbox.extents per top-level entity (precise and fast) on generated documents "
+    "with LINE, POINT, CIRCLE, ARC, ELLIPSE, LWPOLYLINE/POLYLINE with bulges, SPLINE (degree 2-4, rational), SOLID, 3DFACE, "
+    "3D POLYLINE and nested INSERT/MINSERT (depth <= 3, translation, non-uniform/negative scale, rotation, tilted extrusions, "
+    "block base points) against points sampled by an independent implementation of the entity geometry and of the block "
+    "transformation: every sampled point inside the box (1e-7 relative to the coordinate size), box not larger than the "
+    "sampled hull by more than 2e-3 of the entity size (1e-9 for entities made of straight segments; 0.01 = the documented "
+    "flattening distance for splines that are only approximated), fast >= precise. O2: exact self-consistency of "
+    "extents/multi_flat/multi_recursive and of every cache mode (none, handle keys, uuid keys; cold, warm, subsets; HATCH "
+    "with several paths), one cache with both `fast` values. O3: cubic_bezier_bbox/quadratic_bezier_bbox/precise_bbox/"
+    "path.bbox vs 2001-point Bernstein sampling (1e-5 of the span). O4: the set-theoretic reading of union/intersection/"
+    "has_overlap/has_intersection/contains/inside/extend/grow/all_inside/any_inside on the real classes over the same "
+    "grid of boxes, with per-axis interval logic written independently of the model."
 )
 TRUSTED_BASE = [
     "the mini symbolic executor in harness/props/c15.py (Python AST of the predicates -> Lean Bool/Rat expressions); its output "
@@ -41,7 +47,7 @@ TRUSTED_BASE = [
 ]
 ASSUMPTIONS = [
     "coordinates are finite numbers (inf/nan inputs other than the empty-box sentinel are outside the model)",
-    "one Cache object is used with one value of `fast` (the cache key does not contain the flag; mixing is reported by the oracle as a finding)",
+    "cache_transparent assumes one box per key: one Cache object used with one value of `fast` and unmodified entities (the cache key does not contain the flag; mixing is reported by the oracle as known finding C15-F4)",
     "text entities (TEXT/MTEXT/ATTRIB content boxes are estimates by design) are outside the oracle's tightness check",
 ]
 OPEN = [
@@ -414,3 +420,1173 @@ def regenerate(ctx):
     for extra in ("src/ezdxf/disassemble.py", "src/ezdxf/path/tools.py", "src/ezdxf/math/curvetools.py", "src/ezdxf/acc/bezier4p.pyx"):
         ctx.src(extra)
     ctx.write_gen("BBoxKernels", translate(*texts), srcs)
+
+
+# ====================================================================== implementation side of X1/X2
+def fr(x) -> str:
+    return str(Fraction(x))
+
+
+def show_v(v) -> str:
+    return ",".join(fr(c) for c in v)
+
+
+def show_box(b) -> str:
+    return show_v(b.extmin) + "," + show_v(b.extmax) if b.has_data else "E"
+
+
+def spec_str(spec) -> str:
+    if spec is None:
+        return "E"
+    lo, hi = spec
+    return ",".join(str(Fraction(c)) for c in tuple(lo) + tuple(hi))
+
+
+def mk3(spec):
+    from ezdxf.math import BoundingBox, Vec3
+
+    if spec is None:
+        return BoundingBox()
+    lo, hi = spec
+    if all(a <= b for a, b in zip(lo, hi)):
+        return BoundingBox([lo, hi])
+    b = BoundingBox()  # inverted corners: only reachable through the public attributes
+    b.extmin, b.extmax = Vec3(lo), Vec3(hi)
+    return b
+
+
+def mk2(spec):
+    from ezdxf.math import BoundingBox2d, Vec2
+
+    if spec is None:
+        return BoundingBox2d()
+    lo, hi = spec
+    if all(a <= b for a, b in zip(lo, hi)):
+        return BoundingBox2d([lo, hi])
+    b = BoundingBox2d()
+    b.extmin, b.extmax = Vec2(lo), Vec2(hi)
+    return b
+
+
+def tf(b) -> str:
+    return "T" if b else "F"
+
+
+def impl_pair(a, b, kernels=True) -> str:
+    out = [show_box(a.union(b)), show_box(a.intersection(b)), tf(a.has_intersection(b)), tf(a.has_overlap(b)), tf(a.contains(b))]
+    if kernels:  # the driver repeats the observables through the generated kernels
+        out += [out[1], out[2], out[3], out[4]] if a.has_data and b.has_data else ["-"]
+    return ";".join(out)
+
+
+def impl_box(a, dim) -> str:
+    from ezdxf.math import BoundingBox
+
+    size = show_v(a.size) if a.has_data else "N"
+    center = show_v(a.center) if a.has_data else "N"
+    wf = all(x <= y for x, y in zip(a.extmin, a.extmax)) if a.has_data else True
+    out = [tf(a.has_data), tf(a.is_empty), size, center]
+    if dim == 3:
+        e = BoundingBox()
+        e.extend(a)  # the `_extends.extend(box)` idiom of ezdxf.bbox
+        out.append(show_box(e))
+    out.append(tf(wf))
+    return ";".join(out)
+
+
+def impl_pt(a, p) -> str:
+    c = a.copy()
+    c.extend([p])
+    return tf(a.inside(p)) + ";" + show_box(c)
+
+
+def impl_pts(a, pts, cls) -> str:
+    c = a.copy()
+    c.extend(iter(pts))
+    return "/".join([show_box(cls(pts)), show_box(c), tf(a.all_inside(iter(pts))), tf(a.any_inside(iter(pts)))])
+
+
+def impl_grow(a, v) -> str:
+    c = a.copy()
+    try:
+        c.grow(v)
+    except ValueError:
+        return "ValueError"
+    return show_box(c)
+
+
+Q = [Fraction(k, 4) for k in range(-8, 25)]
+
+
+def intervals(ctx):
+    base = [(0, 2), (2, 4), (1, 3), (0, 4), (1, 1), (2, 2), (5, 6), (0.5, 1.5), (-1, 0), (0, 0)]
+    if not ctx.quick:
+        base += [(2, 2.25), (-2, -1), (1.75, 2), (0, 2.5)]
+    return base
+
+
+def boxes3(ctx):
+    iv = intervals(ctx)
+    out = [None]
+    for x, y, z in itertools.product(iv, repeat=3):
+        out.append(((x[0], y[0], z[0]), (x[1], y[1], z[1])))
+    out += [((2, 2, 2), (0, 0, 0)), ((0, 2, 0), (2, 0, 2)), ((1, 0, 0), (0, 2, 2)), ((3, 3, 3), (1, 1, 1))]
+    return out
+
+
+def boxes2(ctx):
+    iv = intervals(ctx)
+    out = [None]
+    for x, y in itertools.product(iv, repeat=2):
+        out.append(((x[0], y[0]), (x[1], y[1])))
+    out += [((2, 2), (0, 0)), ((0, 2), (2, 0)), ((3, 1), (1, 3))]
+    return out
+
+
+REFS3 = [((0, 0, 0), (2, 2, 2)), ((0, 0, 1), (2, 2, 1)), ((2, 2, 2), (2, 2, 2)), ((1, 0, -1), (3, 4, 1)), None,
+         ((2, 2, 2), (0, 0, 0)), ((0, 1, 0), (4, 1, 0)), ((1, 1, 1), (1, 1, 1))]
+REFS2 = [((0, 0), (2, 2)), ((0, 1), (2, 1)), ((2, 2), (2, 2)), ((1, -1), (3, 1)), None, ((2, 2), (0, 0))]
+
+
+def rnd_box(rng, dim):
+    k = rng.random()
+    if k < 0.06:
+        return None
+    lo = [rng.choice(Q[8:24]) for _ in range(dim)]
+    ext = [rng.choice([0, 0, Fraction(1, 4), Fraction(1, 2), 1, 2, 3]) for _ in range(dim)]
+    hi = [a + b for a, b in zip(lo, ext)]
+    if k > 0.97:
+        lo, hi = hi, lo
+    return (tuple(float(c) for c in lo), tuple(float(c) for c in hi))
+
+
+def correspond_algebra(ctx):
+    from ezdxf.math import BoundingBox, BoundingBox2d
+
+    S = "X1 box algebra"
+    cases = []
+    rng = ctx.rng("algebra")
+    b3, b2 = boxes3(ctx), boxes2(ctx)
+    nt = lambda a, b: a is not None or b is not None
+    # all pairs reference x grid, both orders; all pairs of the 2d grid
+    for r in REFS3:
+        for o in b3:
+            for a, b in ((r, o), (o, r)):
+                cases.append((f"pair3|{spec_str(a)}|{spec_str(b)}", impl_pair(mk3(a), mk3(b)), nt(a, b)))
+                ctx.hist(S, "pair3")
+    pairs2 = itertools.product(b2, repeat=2) if not ctx.quick else itertools.chain(
+        ((r, o) for r in REFS2 for o in b2), ((o, r) for r in REFS2 for o in b2), (tuple(rng.sample(b2, 2)) for _ in range(3000)))
+    for a, b in pairs2:
+        cases.append((f"pair2|{spec_str(a)}|{spec_str(b)}", impl_pair(mk2(a), mk2(b)), nt(a, b)))
+        ctx.hist(S, "pair2")
+    # mixed calls: BoundingBox.op(BoundingBox2d) and BoundingBox2d.op(BoundingBox)
+    for r in REFS3:
+        for o in b2:
+            cases.append((f"pair32|{spec_str(r)}|{spec_str(o)}", impl_pair(mk3(r), mk2(o), False), nt(r, o)))
+            ctx.hist(S, "pair32")
+    for r in REFS2:
+        for o in rng.sample(b3, ctx.n(300, 1500)):
+            cases.append((f"pair23|{spec_str(r)}|{spec_str(o)}", impl_pair(mk2(r), mk3(o), False), nt(r, o)))
+            ctx.hist(S, "pair23")
+    # random dyadic pairs
+    for _ in range(ctx.n(3000, 40000)):
+        a, b = rnd_box(rng, 3), rnd_box(rng, 3)
+        if rng.random() < 0.3 and a is not None:  # derive b from a: shift along one axis by the size (touching) or nest
+            lo, hi = a
+            ax = rng.randrange(3)
+            d = hi[ax] - lo[ax]
+            sh = [0.0, 0.0, 0.0]
+            sh[ax] = rng.choice([d, -d, d / 2, 0.0])
+            b = (tuple(x + s for x, s in zip(lo, sh)), tuple(x + s for x, s in zip(hi, sh)))
+        cases.append((f"pair3|{spec_str(a)}|{spec_str(b)}", impl_pair(mk3(a), mk3(b)), nt(a, b)))
+        ctx.hist(S, "pair3-rnd")
+        a, b = rnd_box(rng, 2), rnd_box(rng, 2)
+        cases.append((f"pair2|{spec_str(a)}|{spec_str(b)}", impl_pair(mk2(a), mk2(b)), nt(a, b)))
+        ctx.hist(S, "pair2-rnd")
+    # unary observables
+    for a in b3:
+        cases.append((f"box3|{spec_str(a)}", impl_box(mk3(a), 3), a is not None))
+    for a in b2:
+        cases.append((f"box2|{spec_str(a)}", impl_box(mk2(a), 2), a is not None))
+    ctx.hist(S, "unary", len(b3) + len(b2))
+    # point membership on grid points, extend by one point
+    coords = [-1, 0, 0.5, 1, 2, 2.5, 3]
+    some3 = REFS3 + rng.sample(b3, ctx.n(12, 60))
+    for a in some3:
+        for p in itertools.product(coords, repeat=3):
+            cases.append((f"pt3|{spec_str(a)}|{','.join(str(Fraction(c)) for c in p)}", impl_pt(mk3(a), p), a is not None))
+    some2 = REFS2 + rng.sample(b2, ctx.n(20, 80))
+    for a in some2:
+        for p in itertools.product(coords, repeat=2):
+            cases.append((f"pt2|{spec_str(a)}|{','.join(str(Fraction(c)) for c in p)}", impl_pt(mk2(a), p), a is not None))
+    ctx.hist(S, "point", (len(some3) * 343 + len(some2) * 49))
+    # point lists: constructor, extend, all_inside, any_inside
+    for _ in range(ctx.n(2500, 25000)):
+        for dim, mk, cls, op in ((3, mk3, BoundingBox, "pts3"), (2, mk2, BoundingBox2d, "pts2")):
+            a = rnd_box(rng, dim)
+            n = rng.choice([0, 0, 1, 1, 2, 3, 4, 6])
+            pts = []
+            for _i in range(n):
+                if a is not None and rng.random() < 0.6:  # near / on / inside the box
+                    lo, hi = a
+                    pts.append(tuple(rng.choice([l, h, (l + h) / 2, l - 0.25, h + 0.25]) for l, h in zip(lo, hi)))
+                else:
+                    pts.append(tuple(float(rng.choice(Q)) for _j in range(dim)))
+            req = f"{op}|{spec_str(a)}|" + ";".join(",".join(str(Fraction(c)) for c in p) for p in pts)
+            cases.append((req, impl_pts(mk(a), pts, cls), a is not None or bool(pts)))
+            ctx.hist(S, "points")
+    # grow around the ValueError threshold
+    vals = [-3, -2, -1.5, -1, -0.75, -0.5, -0.25, -0.125, 0, 0.25, 1, 2.5]
+    for a in REFS3 + rng.sample(b3, ctx.n(40, 300)):
+        ext = [] if a is None else [-(h - l) / 2 for l, h in zip(*a)]
+        for v in vals + ext:
+            cases.append((f"grow3|{spec_str(a)}|{Fraction(v)}", impl_grow(mk3(a), v), a is not None))
+            ctx.hist(S, "grow")
+    for a in REFS2 + rng.sample(b2, ctx.n(40, 100)):
+        ext = [] if a is None else [-(h - l) / 2 for l, h in zip(*a)]
+        for v in vals + ext:
+            cases.append((f"grow2|{spec_str(a)}|{Fraction(v)}", impl_grow(mk2(a), v), a is not None))
+            ctx.hist(S, "grow")
+    ctx.correspond(S, "C15", cases, build=DRIVER_DEPS)
+
+
+def correspond_bezier(ctx):
+    from ezdxf.math import Bezier4P, Bezier3P, Vec3, BoundingBox
+    from ezdxf.math._bezier4p import Bezier4P as PyB4
+    from ezdxf.math._bezier3p import Bezier3P as PyB3
+
+    S = "X2 bezier point"
+    rng = ctx.rng("bezier")
+    cases = []
+    for i in range(ctx.n(1200, 10000)):
+        pts = [tuple(float(rng.randint(-8, 8)) if rng.random() < 0.8 else rng.randint(-16, 16) / 2 for _ in range(3)) for _ in range(4)]
+        c4 = [Bezier4P([Vec3(p) for p in pts]), PyB4([Vec3(p) for p in pts])][i % 2]
+        c3 = [Bezier3P([Vec3(p) for p in pts[:3]]), PyB3([Vec3(p) for p in pts[:3]])][i % 2]
+        sp = ["%s" % ",".join(str(Fraction(c)) for c in p) for p in pts]
+        box4, box3_ = BoundingBox(pts), BoundingBox(pts[:3])
+        for k in range(9):
+            t = k / 8
+            p = c4.point(t)
+            cases.append((f"bez4|{sp[0]}|{sp[1]}|{sp[2]}|{sp[3]}|{Fraction(t)}", show_v(p) + ";" + show_v(p) + ";" + tf(box4.inside(p)), 0 < k < 8))
+            p = c3.point(t)
+            cases.append((f"bez3|{sp[0]}|{sp[1]}|{sp[2]}|{Fraction(t)}", show_v(p) + ";" + show_v(p) + ";" + tf(box3_.inside(p)), 0 < k < 8))
+        ctx.hist(S, ["cython", "python"][i % 2])
+    ctx.correspond(S, "C15", cases, build=DRIVER_DEPS)
+
+
+# ====================================================================== document generator (recipes) + independent sampler
+def _unit(v):
+    import numpy as np
+
+    v = np.asarray(v, dtype=float)
+    return v / math.sqrt(float(v @ v))
+
+
+def ocs_axes(extrusion):
+    """arbitrary axis algorithm (DXF reference), written from the specification"""
+    import numpy as np
+
+    n = _unit(extrusion)
+    if abs(n[0]) < 1 / 64 and abs(n[1]) < 1 / 64:
+        ax = np.cross([0.0, 1.0, 0.0], n)
+    else:
+        ax = np.cross([0.0, 0.0, 1.0], n)
+    ax = _unit(ax)
+    ay = _unit(np.cross(n, ax))
+    return ax, ay, n
+
+
+def ocs_to_wcs(pts, extrusion):
+    import numpy as np
+
+    ax, ay, n = ocs_axes(extrusion)
+    pts = np.asarray(pts, dtype=float).reshape(-1, 3)
+    return pts[:, 0:1] * ax + pts[:, 1:2] * ay + pts[:, 2:3] * n
+
+
+EXTRUSIONS = [(0, 0, 1), (0, 0, 1), (0, 0, 1), (0, 0, -1), (1, 0, 0), (0, 1, 0), (1, 1, 1), (0.01, 0.01, 1), (0.02, 0, 1), (-1, 2, 0.5), (0.3, -0.2, -1)]
+
+
+def rc(rng, lo=-10, hi=10):
+    return rng.randint(lo * 4, hi * 4) / 4
+
+
+def gen_entity(rng, blocks, depth_ok=True, kinds=None):
+    kinds = kinds or ["LINE", "LINE", "POINT", "CIRCLE", "ARC", "ARC", "ELLIPSE", "LWPOLYLINE", "LWPOLYLINE", "SPLINE", "SPLINE",
+                      "SOLID", "POLYLINE3D", "POLYLINE2D", "3DFACE"] + (["INSERT"] * 5 if blocks and depth_ok else [])
+    k = rng.choice(kinds)
+    ext = list(rng.choice(EXTRUSIONS))
+    if k == "LINE":
+        return {"t": k, "start": [rc(rng), rc(rng), rc(rng)], "end": [rc(rng), rc(rng), rc(rng)]}
+    if k == "POINT":
+        return {"t": k, "location": [rc(rng), rc(rng), rc(rng)]}
+    if k == "CIRCLE":
+        return {"t": k, "center": [rc(rng), rc(rng), rc(rng, -3, 3)], "radius": rng.randint(1, 20) / 4, "extrusion": ext}
+    if k == "ARC":
+        a0 = rng.choice([0, 30, 45, 90, 135, 180, 200, 270, 300, rng.uniform(0, 360)])
+        sweep = rng.choice([10, 45, 90, 120, 180, 270, 359, rng.uniform(1, 359)])
+        return {"t": k, "center": [rc(rng), rc(rng), rc(rng, -3, 3)], "radius": rng.randint(1, 20) / 4, "start_angle": a0,
+                "end_angle": (a0 + sweep) % 360, "extrusion": ext}
+    if k == "ELLIPSE":
+        t0 = rng.choice([0, 0, 0.5, 1.0, 3.0, rng.uniform(0, 6.28)])
+        t1 = rng.choice([math.tau, t0 + 1.0, t0 + 3.0, t0 + rng.uniform(0.1, 6.2)])
+        if t0 == 0 and rng.random() < 0.5:
+            t1 = math.tau
+        return {"t": k, "center": [rc(rng), rc(rng), rc(rng, -3, 3)], "major": [rng.randint(2, 20) / 4, rng.choice([0, 0, 1, -2, 3]) * 1.0],
+                "ratio": rng.choice([0.25, 0.5, 0.75, 1.0, 0.1]), "start_param": t0, "end_param": t1, "extrusion": ext}
+    if k in ("LWPOLYLINE", "POLYLINE2D"):
+        n = rng.randint(2, 6)
+        pts = [[rc(rng), rc(rng), rng.choice([0, 0, 0.5, -0.5, 1, -1, 0.25, 2, -1.5])] for _ in range(n)]
+        for i in range(1, n):  # no zero-length segments (a bulge on them is undefined)
+            if pts[i][:2] == pts[i - 1][:2]:
+                pts[i][0] += 1
+        if pts[0][:2] == pts[-1][:2]:
+            pts[-1][1] += 1
+        return {"t": k, "points": pts, "closed": rng.random() < 0.4, "elevation": rc(rng, -3, 3), "extrusion": ext}
+    if k == "SPLINE":
+        deg = rng.choice([2, 3, 3, 3, 4])
+        n = rng.randint(deg + 1, deg + 5)
+        cps = [[rc(rng), rc(rng), rng.choice([0, 0, rc(rng, -3, 3)])] for _ in range(n)]
+        w = [rng.choice([1, 1, 2, 0.5, 3]) for _ in range(n)] if rng.random() < 0.3 else None
+        return {"t": k, "control_points": cps, "degree": deg, "weights": w}
+    if k == "SOLID":
+        return {"t": k, "points": [[rc(rng), rc(rng)] for _ in range(4)], "elevation": rc(rng, -3, 3), "extrusion": ext}
+    if k == "3DFACE":
+        return {"t": k, "points": [[rc(rng), rc(rng), rc(rng)] for _ in range(4)]}
+    if k == "POLYLINE3D":
+        return {"t": k, "points": [[rc(rng), rc(rng), rc(rng)] for _ in range(rng.randint(2, 6))], "closed": rng.random() < 0.3}
+    if k == "INSERT":
+        s = lambda: rng.choice([1, 1, 2, 0.5, -1, -2, 1.5, -0.5])
+        uniform = rng.random() < 0.4
+        sx = s()
+        grid = rng.random() < 0.1
+        return {"t": k, "name": rng.choice(blocks), "insert": [rc(rng), rc(rng), rc(rng, -3, 3)],
+                "scale": [sx, sx, sx] if uniform else [sx, s(), s()],
+                "rotation": rng.choice([0, 0, 90, 180, 30, 45, -60, rng.uniform(0, 360)]), "extrusion": ext,
+                "grid": [rng.randint(1, 3), rng.randint(1, 2), rc(rng, 1, 6), rc(rng, 1, 6)] if grid else None}
+    raise ValueError(k)
+
+
+def gen_recipe(rng, n_top, n_blocks, depth):
+    """{"blocks": [{name, base, entities}], "msp": [entities]}; block i only references blocks < i"""
+    blocks = []
+    for i in range(n_blocks):
+        names = [b["name"] for b in blocks if b["level"] < depth]
+        ents = [gen_entity(rng, names) for _ in range(rng.randint(1, 4))]
+        level = 1 + max([next(b["level"] for b in blocks if b["name"] == e["name"]) for e in ents if e["t"] == "INSERT"], default=0)
+        blocks.append({"name": f"B{i}", "base": [rng.choice([0, 0, rc(rng, -3, 3)]) for _ in range(3)], "entities": ents, "level": level})
+    names = [b["name"] for b in blocks]
+    return {"blocks": blocks, "msp": [gen_entity(rng, names) for _ in range(n_top)]}
+
+
+def build_entity(layout, e):
+    t = e["t"]
+    if t == "LINE":
+        return layout.add_line(e["start"], e["end"])
+    if t == "POINT":
+        return layout.add_point(e["location"])
+    if t == "CIRCLE":
+        return layout.add_circle(e["center"], e["radius"], dxfattribs={"extrusion": e["extrusion"]})
+    if t == "ARC":
+        return layout.add_arc(e["center"], e["radius"], e["start_angle"], e["end_angle"], dxfattribs={"extrusion": e["extrusion"]})
+    if t == "ELLIPSE":
+        ax, ay, n = ocs_axes(e["extrusion"])
+        major = e["major"][0] * ax + e["major"][1] * ay
+        center = ocs_to_wcs([e["center"]], e["extrusion"])[0]
+        return layout.add_ellipse(tuple(center), tuple(major), e["ratio"], e["start_param"], e["end_param"],
+                                  dxfattribs={"extrusion": tuple(n)})
+    if t == "LWPOLYLINE":
+        return layout.add_lwpolyline(e["points"], format="xyb", close=e["closed"],
+                                     dxfattribs={"elevation": e["elevation"], "extrusion": e["extrusion"]})
+    if t == "POLYLINE2D":
+        return layout.add_polyline2d(e["points"], format="xyb", close=e["closed"],
+                                     dxfattribs={"elevation": (0, 0, e["elevation"]), "extrusion": e["extrusion"]})
+    if t == "SPLINE":
+        if e["weights"]:
+            return layout.add_rational_spline(e["control_points"], e["weights"], degree=e["degree"])
+        return layout.add_open_spline(e["control_points"], degree=e["degree"])
+    if t == "SOLID":
+        return layout.add_solid([(x, y, e["elevation"]) for x, y in e["points"]], dxfattribs={"extrusion": e["extrusion"]})
+    if t == "3DFACE":
+        return layout.add_3dface(e["points"])
+    if t == "POLYLINE3D":
+        return layout.add_polyline3d(e["points"], close=e["closed"])
+    if t == "INSERT":
+        ins = layout.add_blockref(e["name"], e["insert"], dxfattribs={
+            "xscale": e["scale"][0], "yscale": e["scale"][1], "zscale": e["scale"][2], "rotation": e["rotation"], "extrusion": e["extrusion"]})
+        if e.get("grid"):
+            cols, rows, cs, rs = e["grid"]
+            ins.dxf.column_count, ins.dxf.row_count, ins.dxf.column_spacing, ins.dxf.row_spacing = cols, rows, cs, rs
+        return ins
+    raise ValueError(t)
+
+
+def build_doc(recipe):
+    import ezdxf
+
+    doc = ezdxf.new("R2010")
+    for b in recipe["blocks"]:
+        blk = doc.blocks.new(b["name"], base_point=b["base"])
+        for e in b["entities"]:
+            build_entity(blk, e)
+    msp = doc.modelspace()
+    ents = [build_entity(msp, e) for e in recipe["msp"]]
+    return doc, ents
+
+
+def _deboor(knots, cps, weights, degree, us):
+    """Cox-de Boor evaluation of a (rational) B-spline, written from the textbook recursion"""
+    import numpy as np
+
+    cps = np.asarray(cps, dtype=float)
+    n = len(cps)
+    w = np.ones(n) if not weights else np.asarray(weights, dtype=float)
+    out = []
+    for u in us:
+        # basis functions of degree 0
+        N = np.zeros(len(knots) - 1)
+        for i in range(len(knots) - 1):
+            if knots[i] <= u < knots[i + 1]:
+                N[i] = 1.0
+        if u >= knots[-1]:  # right end of the domain belongs to the last non-empty span
+            last = max(i for i in range(len(knots) - 1) if knots[i] < knots[i + 1])
+            N[:] = 0.0
+            N[last] = 1.0
+        for p in range(1, degree + 1):
+            M = np.zeros(len(knots) - 1 - p)
+            for i in range(len(M)):
+                a = 0.0 if knots[i + p] == knots[i] else (u - knots[i]) / (knots[i + p] - knots[i]) * N[i]
+                b = 0.0 if knots[i + p + 1] == knots[i + 1] else (knots[i + p + 1] - u) / (knots[i + p + 1] - knots[i + 1]) * N[i + 1]
+                M[i] = a + b
+            N = M
+        Nw = N[:n] * w
+        out.append((Nw[:, None] * cps).sum(0) / Nw.sum())
+    return np.array(out)
+
+
+def sample_entity(e, blocks, density, entity=None):
+    """WCS points ON the geometry of the recipe entity (numpy array n x 3), independent of ezdxf's geometry code;
+    `entity` is only read for stored data of the SPLINE (knot vector)."""
+    import numpy as np
+
+    t = e["t"]
+    if t == "LINE":
+        return np.array([e["start"], e["end"]], dtype=float)
+    if t == "POINT":
+        return np.array([e["location"]], dtype=float)
+    if t in ("CIRCLE", "ARC"):
+        if t == "CIRCLE":
+            a = np.linspace(0, math.tau, 4 * density + 1)
+        else:
+            a0, a1 = math.radians(e["start_angle"]), math.radians(e["end_angle"])
+            if a1 <= a0:
+                a1 += math.tau
+            a = np.linspace(a0, a1, 4 * density + 1)
+        c, r = e["center"], e["radius"]
+        pts = np.stack([c[0] + r * np.cos(a), c[1] + r * np.sin(a), np.full_like(a, c[2])], axis=1)
+        return ocs_to_wcs(pts, e["extrusion"])
+    if t == "ELLIPSE":
+        t0, t1 = e["start_param"], e["end_param"]
+        if t1 <= t0:
+            t1 += math.tau
+        a = np.linspace(t0, t1, 4 * density + 1)
+        mx, my = e["major"]
+        rx, ry = -my * e["ratio"], mx * e["ratio"]  # minor axis = z x major (in OCS), scaled by ratio
+        c = e["center"]
+        pts = np.stack([c[0] + mx * np.cos(a) + rx * np.sin(a), c[1] + my * np.cos(a) + ry * np.sin(a), np.full_like(a, c[2])], axis=1)
+        return ocs_to_wcs(pts, e["extrusion"])
+    if t in ("LWPOLYLINE", "POLYLINE2D"):
+        P = e["points"]
+        segs = list(zip(P, P[1:])) + ([(P[-1], P[0])] if e["closed"] else [])
+        out = [[P[0][0], P[0][1]]]
+        for (x1, y1, b, *_), (x2, y2, *_r) in segs:
+            if b == 0:
+                out.append([x2, y2])
+                continue
+            dx, dy = x2 - x1, y2 - y1
+            d = math.hypot(dx, dy)
+            theta = 4 * math.atan(b)
+            h = (d / 2) * (1 - b * b) / (2 * b)
+            cx, cy = (x1 + x2) / 2 - dy / d * h, (y1 + y2) / 2 + dx / d * h
+            r = math.hypot(x1 - cx, y1 - cy)
+            a0 = math.atan2(y1 - cy, x1 - cx)
+            for u in np.linspace(0, 1, density + 1)[1:]:
+                out.append([cx + r * math.cos(a0 + theta * u), cy + r * math.sin(a0 + theta * u)])
+        pts = np.array([[x, y, e["elevation"]] for x, y in out])
+        return ocs_to_wcs(pts, e["extrusion"])
+    if t == "SPLINE":
+        knots = list(entity.knots) if entity is not None else None
+        if knots is None:
+            raise ValueError("SPLINE sampling needs the stored knot vector")
+        deg = e["degree"]
+        us = np.linspace(knots[deg], knots[-deg - 1], 12 * density + 1)
+        return _deboor(knots, e["control_points"], e["weights"], deg, us)
+    if t == "SOLID":
+        return ocs_to_wcs([[x, y, e["elevation"]] for x, y in e["points"]], e["extrusion"])
+    if t in ("3DFACE", "POLYLINE3D"):
+        return np.array(e["points"], dtype=float)
+    if t == "INSERT":
+        blk = next(b for b in blocks if b["name"] == e["name"])
+        parts = []
+        for ce in blk["entities"]:
+            parts.append(sample_entity(ce, blocks, density, entity=None if ce["t"] != "SPLINE" else _spline_proxy(ce)))
+        if not parts:
+            return np.zeros((0, 3))
+        pts = np.concatenate(parts) - np.array(blk["base"], dtype=float)
+        pts = pts * np.array(e["scale"], dtype=float)
+        a = math.radians(e["rotation"])
+        ca, sa = math.cos(a), math.sin(a)
+        rot = lambda q: np.stack([q[:, 0] * ca - q[:, 1] * sa, q[:, 0] * sa + q[:, 1] * ca, q[:, 2]], axis=1)
+        pts = rot(pts)
+        copies = []
+        cols, rows, cs, rs = e.get("grid") or (1, 1, 0, 0)
+        for ci in range(cols):
+            for ri in range(rows):
+                off = rot(np.array([[ci * cs, ri * rs, 0.0]]))
+                copies.append(pts + np.array(e["insert"], dtype=float) + off)
+        return ocs_to_wcs(np.concatenate(copies), e["extrusion"])
+    raise ValueError(t)
+
+
+class _spline_proxy:
+    """knot vector of a SPLINE inside a block: open uniform (clamped) as documented for add_open_spline /
+    add_rational_spline, computed here without ezdxf"""
+
+    def __init__(self, e):
+        n, order = len(e["control_points"]), e["degree"] + 1
+        inner = list(range(1, n - order + 1))
+        self.knots = [0.0] * order + [float(k) for k in inner] + [float(n - order + 1)] * order
+
+
+# ====================================================================== X3: cache protocol (model vs real functions)
+def _key(cache, entity):
+    """the cache key as the model assumes it (Cache(uuid=False)): none for HATCH and for entities without a real handle"""
+    if entity.dxftype() == "HATCH":
+        return None
+    h = entity.dxf.handle
+    return None if h is None or h == "0" else int(h, 16)
+
+
+def _kstr(k):
+    return "n" if k is None else str(k)
+
+
+def cache_state(cache) -> str:
+    ents = sorted((int(k, 16), b) for k, b in cache._boxes.items())
+    return "~".join(f"{k}={show_box(b)}" for k, b in ents) + f"|{cache.hits}|{cache.misses}"
+
+
+def ents_str(entities, fast) -> str:
+    from ezdxf import bbox, disassemble
+
+    probe = bbox.Cache()
+    out = []
+    for e in entities:
+        prims = []
+        for p in disassemble.to_primitives(disassemble.recursive_decompose([e])):
+            if p.is_empty:
+                continue
+            prims.append(f"{_kstr(_key(probe, p.entity))}={show_box(p.bbox(fast=fast))}")
+        out.append(f"{_kstr(_key(probe, e))}:" + "&".join(prims))
+    return ";".join(out)
+
+
+def x3_doc(rng):
+    """a document for the cache stream: the oracle's entity kinds plus HATCH (never cached), INSERT with ATTRIBs
+    (real sub-entities with handles), entities without geometry"""
+    rec = gen_recipe(rng, rng.randint(2, 7), rng.randint(1, 3), 2)
+    doc, ents = build_doc(rec)
+    msp = doc.modelspace()
+    if rng.random() < 0.5:
+        h = msp.add_hatch()
+        h.paths.add_polyline_path([(rc(rng), rc(rng)) for _ in range(4)], is_closed=True)
+        ents.append(h)
+        if rng.random() < 0.5:
+            h.paths.add_polyline_path([(rc(rng), rc(rng), 0.5) for _ in range(3)], is_closed=True)
+    for e in list(ents):
+        if e.dxftype() == "INSERT" and rng.random() < 0.4:
+            e.add_attrib("TAG", "value", (rc(rng), rc(rng)))
+    if rng.random() < 0.3:
+        ents.append(msp.add_circle((0, 0), 0.0))  # no geometry -> box without data (stored by multi_flat only)
+    if rng.random() < 0.3:
+        ents.append(msp.add_lwpolyline([(1, 1)]))
+    if rng.random() < 0.3 and ents:
+        ents.append(ents[0])  # the same entity twice in one call
+    rng.shuffle(ents)
+    return doc, ents
+
+
+def correspond_cache(ctx):
+    from ezdxf import bbox
+    from ezdxf.math import BoundingBox
+    import copy as _copy
+
+    S = "X3 cache protocol"
+    rng = ctx.rng("cache")
+    cases = []
+    for d in range(ctx.n(120, 800)):
+        doc, ents = x3_doc(rng)
+        fast = rng.random() < 0.3
+        cache = bbox.Cache()
+        calls = [("flat", ents, True), ("flat", ents, True), ("rec", rng.sample(ents, max(1, len(ents) // 2)), True),
+                 ("flat", rng.sample(ents, max(1, len(ents) // 2)), True), ("flat", ents, False), ("rec", ents, False)]
+        if rng.random() < 0.5:
+            calls.insert(0, ("rec", rng.sample(ents, max(1, len(ents) // 2)), True))
+        for fn, sub, uc in calls:
+            pre = cache_state(cache) if uc else "|0|0"
+            es = ents_str(sub, fast)
+            c = cache if uc else None
+            if fn == "flat":
+                clone = None
+                if uc:
+                    clone = bbox.Cache()
+                    clone._boxes, clone.hits, clone.misses = dict(cache._boxes), cache.hits, cache.misses
+                yields = list(bbox.multi_flat(sub, fast=fast, cache=c))
+                total = bbox.extents(sub, fast=fast, cache=clone)
+                if uc and cache_state(clone) != cache_state(cache):
+                    ctx.disagree(S, f"extents vs multi_flat cache state doc {d}", cache_state(clone), cache_state(cache))
+            else:
+                yields = list(bbox.multi_recursive(sub, fast=fast, cache=c))
+                total = BoundingBox()
+                for y in yields:
+                    total.extend(y)
+            post = cache_state(cache) if uc else "|0|0"
+            req = f"cache|{fn}|{1 if uc else 0}|{pre}|{es}"
+            cases.append((req, "~".join(show_box(y) for y in yields) + "|" + show_box(total) + "|" + post, uc))
+            ctx.hist(S, f"{fn}/{'cache' if uc else 'plain'}")
+    ctx.correspond(S, "C15", cases, build=DRIVER_DEPS)
+
+
+def correspond(ctx):
+    correspond_algebra(ctx)
+    correspond_bezier(ctx)
+    correspond_cache(ctx)
+
+
+# ====================================================================== oracle on the real code
+TOL_CONTAIN = 1e-7  # true curve points vs box (the Bezier approximation of arcs never lies inside the arc)
+TOL_TIGHT_REL = 2e-3  # box vs hull of the sampled geometry, relative to the size of that hull
+TOL_DOC = 0.01  # documented flattening distance (Primitive.max_flattening_distance, docs of ezdxf.bbox)
+
+
+def _nonuniform(s):
+    a = [abs(x) for x in s]
+    return max(a) - min(a) > 1e-12
+
+
+def classify(e, blocks, anc_nonuniform=False, anc_scaled=False) -> set:
+    """known-defect classes present in the tree of a recipe entity"""
+    out = set()
+    if e["t"] == "SPLINE" and (e["degree"] != 3 or e["weights"]):
+        out.add("spline-approx")
+    if e["t"] == "INSERT":
+        tilted = abs(e["extrusion"][0]) > 1e-12 or abs(e["extrusion"][1]) > 1e-12
+        if anc_nonuniform and (e["rotation"] % 180 != 0 or tilted):
+            out.add("nested-insert-shear")
+        if anc_scaled and e.get("grid") and e["grid"][0] * e["grid"][1] > 1:
+            out.add("nested-minsert-scaled")
+        blk = next(b for b in blocks if b["name"] == e["name"])
+        nu = anc_nonuniform or _nonuniform(e["scale"])
+        sc = anc_scaled or any(x != 1 for x in e["scale"])
+        for ce in blk["entities"]:
+            out |= classify(ce, blocks, nu, sc)
+    return out
+
+
+def _straight(e, blocks) -> bool:
+    if e["t"] in ("LINE", "POINT", "SOLID", "3DFACE", "POLYLINE3D"):
+        return True
+    if e["t"] in ("LWPOLYLINE", "POLYLINE2D"):
+        pts = e["points"]
+        used = pts if e["closed"] else pts[:-1]
+        return all(p[2] == 0 for p in used)
+    if e["t"] == "INSERT":
+        blk = next(b for b in blocks if b["name"] == e["name"])
+        return all(_straight(c, blocks) for c in blk["entities"])
+    return False
+
+
+def check_entity(e, blocks, ent, density):
+    """returns list of (what, detail) violations of containment/tightness/fast>=precise for one top-level entity"""
+    import numpy as np
+    from ezdxf import bbox
+
+    bad = []
+    precise = bbox.extents([ent], fast=False)
+    fast = bbox.extents([ent], fast=True)
+    pts = sample_entity(e, blocks, density, entity=ent)
+    if len(pts) == 0:
+        return bad, 0.0, 0.0
+    lo, hi = pts.min(0), pts.max(0)
+    diag = float(np.linalg.norm(hi - lo))
+    if not precise.has_data or not fast.has_data:
+        return [("nodata", f"no bounding box for {e['t']} with {len(pts)} sampled points")], 0.0, 0.0
+    pmin, pmax = np.array(precise.extmin), np.array(precise.extmax)
+    fmin, fmax = np.array(fast.extmin), np.array(fast.extmax)
+    scale = max(1.0, float(np.abs(pts).max()))
+    out = max(float((pmin - lo).max()), float((hi - pmax).max()))  # > 0: geometry outside the precise box
+    slack = max(float((lo - pmin).max()), float((pmax - hi).max()))  # > 0: precise box larger than the geometry
+    tol_c = TOL_CONTAIN * scale
+    tol_t = (1e-9 * scale) if _straight(e, blocks) else (TOL_TIGHT_REL * diag + 1e-9 * scale)
+    if "spline-approx" in classify(e, blocks):
+        # degree != 3 or rational: cubic_bezier_approximation(level=4) has no stated error bound; the only documented
+        # number is the flattening distance
+        tol_c, tol_t = max(tol_c, TOL_DOC), max(tol_t, TOL_DOC)
+    if out > tol_c:
+        bad.append(("contain", f"geometry leaves the precise box by {out:.3g} (size {diag:.3g})"))
+    if slack > tol_t:
+        bad.append(("tight", f"precise box exceeds the geometry by {slack:.3g} (size {diag:.3g}, tolerance {tol_t:.3g})"))
+    fout = max(float((fmin - lo).max()), float((hi - fmax).max()))
+    if fout > tol_c:
+        bad.append(("contain-fast", f"geometry leaves the fast box by {fout:.3g}"))
+    shrink = max(float((fmin - pmin).max()), float((pmax - fmax).max()))
+    if shrink > 1e-9 * scale:
+        bad.append(("fast-smaller", f"fast box is smaller than the precise box by {shrink:.3g}"))
+    return bad, out / max(diag, 1e-3 * scale), slack / max(diag, 1e-3 * scale)
+
+
+def same_box(a, b) -> bool:
+    if a.has_data != b.has_data:
+        return False
+    return (not a.has_data) or (tuple(a.extmin) == tuple(b.extmin) and tuple(a.extmax) == tuple(b.extmax))
+
+
+def check_consistency(ents, fast, rng):
+    """exact self-consistency of the three entry points and of every cache mode; returns list of (what, detail)"""
+    from ezdxf import bbox
+    from ezdxf.math import BoundingBox
+
+    bad = []
+    ref = bbox.extents(ents, fast=fast)
+    flat = list(bbox.multi_flat(ents, fast=fast))
+    rec = list(bbox.multi_recursive(ents, fast=fast))
+    u = BoundingBox()
+    for b in flat:
+        u.extend(b)
+    if not same_box(u, ref):
+        bad.append(("flat-vs-extents", f"{u} != {ref}"))
+    u = BoundingBox()
+    for b in rec:
+        u.extend(b)
+    if not same_box(u, ref):
+        bad.append(("recursive-vs-extents", f"{u} != {ref}"))
+    singles = [bbox.extents([e], fast=fast) for e in ents]
+    singles = [b for b in singles if b.has_data]
+    if len(singles) != len(flat) or not all(same_box(a, b) for a, b in zip(singles, flat)):
+        bad.append(("flat-vs-single", "multi_flat differs from per-entity extents"))
+    for b in flat + rec:
+        if not ref.contains(b):
+            bad.append(("part-outside", f"{b} not inside {ref}"))
+            break
+    for uuid in (False, True):
+        cache = bbox.Cache(uuid=uuid)
+        sub = rng.sample(ents, max(1, len(ents) // 2))
+        steps = [("sub-cold", sub), ("all", ents), ("all-warm", ents), ("sub-warm", sub)]
+        if rng.random() < 0.5:
+            steps = steps[1:]
+        for name, es in steps:
+            want = bbox.extents(es, fast=fast)
+            got = bbox.extents(es, fast=fast, cache=cache)
+            if not same_box(want, got):
+                bad.append((f"cache-extents/{'uuid' if uuid else 'handle'}/{name}", f"{got} != {want}"))
+            wf = list(bbox.multi_flat(es, fast=fast))
+            gf = list(bbox.multi_flat(es, fast=fast, cache=cache))
+            if len(wf) != len(gf) or not all(same_box(a, b) for a, b in zip(wf, gf)):
+                bad.append((f"cache-flat/{'uuid' if uuid else 'handle'}/{name}", "multi_flat with cache differs"))
+            wr = list(bbox.multi_recursive(es, fast=fast))
+            gr = list(bbox.multi_recursive(es, fast=fast, cache=cache))
+            if len(wr) != len(gr) or not all(same_box(a, b) for a, b in zip(wr, gr)):
+                bad.append((f"cache-recursive/{'uuid' if uuid else 'handle'}/{name}", "multi_recursive with cache differs"))
+    return bad
+
+
+def check_fast_mix(ents):
+    """one cache used with both values of `fast` (the key does not contain the flag)"""
+    from ezdxf import bbox
+
+    cache = bbox.Cache()
+    bbox.extents(ents, fast=True, cache=cache)
+    got = bbox.extents(ents, fast=False, cache=cache)
+    want = bbox.extents(ents, fast=False)
+    return same_box(got, want), f"precise extents after a fast run with the same cache: {got} != {want}"
+
+
+def oracle_docs(ctx):
+    rng = ctx.rng("docs")
+    S = "O1 extents vs sampled geometry"
+    density = ctx.n(48, 96)
+    worst = {}
+    for d in range(ctx.n(400, 6000)):
+        depth = rng.choice([1, 2, 2, 3])
+        recipe = gen_recipe(rng, rng.randint(2, 6), rng.randint(0, 4), depth)
+        if rng.random() < 0.3:  # a HATCH with several boundary paths: several primitives share one handle (never cached)
+            recipe["hatch"] = [[[rc(rng), rc(rng), rng.choice([0, 0.5])] for _ in range(rng.randint(3, 5))] for _ in range(rng.randint(1, 3))]
+        try:
+            doc, ents = build_doc(recipe)
+        except Exception as ex:  # noqa
+            ctx.fail(f"build/{type(ex).__name__}/{d}", f"building the document raised {ex!r}", {"op": "doc", "recipe": recipe, "index": None})
+            continue
+        for i, (e, ent) in enumerate(zip(recipe["msp"], ents)):
+            cls = classify(e, recipe["blocks"])
+            ctx.count(S, ("e", d, i), True)
+            ctx.hist(S, e["t"] + ("" if not cls else "[" + ",".join(sorted(cls)) + "]"))
+            try:
+                bad, rout, rslack = check_entity(e, recipe["blocks"], ent, density)
+            except Exception as ex:  # noqa
+                ctx.fail(f"geom/raise/{type(ex).__name__}/{e['t']}/{d}.{i}", f"extents of {e['t']} raised {ex!r}",
+                         {"op": "entity", "recipe": recipe, "index": i})
+                continue
+            if not bad and not cls:
+                w = worst.setdefault(e["t"], [0.0, 0.0])
+                w[0], w[1] = max(w[0], rout), max(w[1], rslack)
+            for what, detail in bad:
+                k = "other"
+                if what in ("contain", "tight", "contain-fast", "nodata"):
+                    for c in ("nested-insert-shear", "nested-minsert-scaled", "spline-approx"):
+                        if c in cls:
+                            k = c
+                            break
+                    if k == "spline-approx" and max(rout, rslack) > 0.1:  # beyond 10 % of the size it is something else
+                        k = "other"
+                elif what == "fast-smaller" and "nested-insert-shear" in cls:
+                    k = "other"  # self-consistency must hold even for wrongly placed geometry
+                ctx.fail(f"geom/{k}/{what}/{e['t']}/{d}.{i}", f"{e['t']} (doc {d}, entity {i}, classes {sorted(cls)}): {detail}",
+                         {"op": "entity", "recipe": recipe, "index": i})
+        fast = rng.random() < 0.5
+        ctx.count("O2 consistency and cache", ("d", d), True)
+        try:
+            if recipe.get("hatch"):
+                h = doc.modelspace().add_hatch()
+                for path_pts in recipe["hatch"]:
+                    h.paths.add_polyline_path(path_pts, is_closed=True)
+                ents = ents + [h]
+            for what, detail in check_consistency(ents, fast, rng):
+                ctx.fail(f"consistency/{what}/{d}", f"doc {d} fast={fast}: {detail}", {"op": "consistency", "recipe": recipe, "fast": fast})
+            ok, detail = check_fast_mix(ents) if d < 12 else (True, "")
+            if not ok:
+                ctx.fail(f"cache/fast-mix/{d}", f"doc {d}: {detail}", {"op": "fastmix", "recipe": recipe})
+        except Exception as ex:  # noqa
+            ctx.fail(f"consistency/raise/{type(ex).__name__}/{d}", f"doc {d}: {ex!r}", {"op": "consistency", "recipe": recipe, "fast": fast})
+    ctx.note("largest relative deviation per entity kind outside the known classes (geometry outside box / box slack, "
+             "relative to the entity size): " + "; ".join(f"{k} {v[0]:.1e}/{v[1]:.1e}" for k, v in sorted(worst.items())))
+
+
+def _cancel_class(A) -> str:
+    """'cancellation' if on some axis the leading coefficient a of B'(t) = a t^2 + b t + c passes the absolute test
+    abs(a) >= 1e-12 of cubic_bezier_bbox but is negligible against b (the textbook quadratic formula then loses a root)"""
+    a = 3.0 * (-A[0] + 3.0 * A[1] - 3.0 * A[2] + A[3])
+    b = 6.0 * (A[0] - 2.0 * A[1] + A[2])
+    for x, y in zip(a, b):
+        if abs(x) < 1e-6 * abs(y) and abs(x) > 1e-14:
+            return "cancellation"
+    return "other"
+
+
+def oracle_bezier(ctx):
+    """cubic_bezier_bbox / quadratic_bezier_bbox / path.bbox / precise_bbox vs dense Bernstein sampling"""
+    import numpy as np
+    from ezdxf.math import Bezier4P, Bezier3P, Vec3, cubic_bezier_bbox, quadratic_bezier_bbox, BoundingBox
+    from ezdxf import path as ezpath
+
+    rng = ctx.rng("bez-oracle")
+    S = "O3 bezier bbox"
+    ts = np.linspace(0, 1, 2001)[:, None]
+    for n in range(ctx.n(3000, 60000)):
+        mode = rng.choice(["int", "int", "float", "flat", "tiny-a", "collinear", "big", "elevated"])
+        if mode == "int":
+            P = [[rng.randint(-8, 8) for _ in range(3)] for _ in range(4)]
+        elif mode == "float":
+            P = [[rng.uniform(-10, 10) for _ in range(3)] for _ in range(4)]
+        elif mode == "big":
+            off = rng.choice([1e3, 1e6])
+            P = [[off + rng.uniform(-10, 10) for _ in range(3)] for _ in range(4)]
+        elif mode == "flat":
+            P = [[rng.randint(-8, 8), rng.randint(-8, 8), 0] for _ in range(4)]
+        elif mode == "elevated":  # a quadratic curve written as a cubic one, ordinary drawing coordinates
+            m = rng.choice([10, 100, 1000])
+            q0, q1, q2 = ([float(rng.randint(-m, m)) for _ in range(3)] for _ in range(3))
+            P = [q0, [a + 2 / 3 * (b - a) for a, b in zip(q0, q1)], [c + 2 / 3 * (b - c) for c, b in zip(q2, q1)], q2]
+        elif mode == "tiny-a":  # leading coefficient of the derivative (almost) vanishes: -p0 + 3p1 - 3p2 + p3 ~ 0
+            p0, p1, p2 = ([rng.uniform(-5, 5) for _ in range(3)] for _ in range(3))
+            eps = rng.choice([0, 1e-13, 1e-12, 1e-11, 1e-9])
+            P = [p0, p1, p2, [a - 3 * b + 3 * c + eps for a, b, c in zip(p0, p1, p2)]]
+        else:
+            a, b = [rng.randint(-8, 8) for _ in range(3)], [rng.randint(-8, 8) for _ in range(3)]
+            P = [[x + (y - x) * s for x, y in zip(a, b)] for s in (0, rng.uniform(-1, 2), rng.uniform(-1, 2), 1)]
+        A = np.array(P, dtype=float)
+        curve = (1 - ts) ** 3 * A[0] + 3 * (1 - ts) ** 2 * ts * A[1] + 3 * (1 - ts) * ts ** 2 * A[2] + ts ** 3 * A[3]
+        lo, hi = curve.min(0), curve.max(0)
+        span = max(1e-9, float((A.max(0) - A.min(0)).max()))
+        mag = max(1.0, float(np.abs(A).max()))
+        tol = 1e-5 * span + 1e-9 * mag
+        ctx.count(S, ("b", n), True)
+        ctx.hist(S, mode)
+        box = cubic_bezier_bbox(Bezier4P([Vec3(p) for p in P]))
+        p = ezpath.Path(Vec3(P[0]))
+        p.curve4_to(Vec3(P[3]), Vec3(P[1]), Vec3(P[2]))
+        pb = ezpath.precise_bbox(p)
+        fb = ezpath.bbox([p], fast=True)
+        cb = BoundingBox([Vec3(q) for q in P])
+        for name, b in (("cubic_bezier_bbox", box), ("precise_bbox", pb), ("path.bbox(fast=False)", ezpath.bbox([p], fast=False))):
+            bmin, bmax = np.array(b.extmin), np.array(b.extmax)
+            out = max(float((bmin - lo).max()), float((hi - bmax).max()))
+            slack = max(float((lo - bmin).max()), float((bmax - hi).max()))
+            if out > tol or slack > tol:
+                ctx.fail(f"bezier/{_cancel_class(A)}/{name}/{mode}/{n}", f"{name} of {P}: curve outside by {out:.3g}, slack {slack:.3g} (tol {tol:.3g})",
+                         {"op": "bezier", "points": P})
+        # fast == control box (exact); precise inside fast up to the rounding of the evaluated extremum points
+        grow = 1e-9 * mag
+        inside_fast = all(f - grow <= q for f, q in zip(fb.extmin, pb.extmin)) and all(q <= f + grow for f, q in zip(fb.extmax, pb.extmax))
+        if not same_box(fb, cb) or not inside_fast:
+            ctx.fail(f"bezier/other/fast/{mode}/{n}", f"fast box {fb} vs control box {cb} vs precise {pb}", {"op": "bezier", "points": P})
+        # quadratic
+        Q3 = A[:3]
+        qc = (1 - ts) ** 2 * Q3[0] + 2 * (1 - ts) * ts * Q3[1] + ts ** 2 * Q3[2]
+        qb = quadratic_bezier_bbox(Bezier3P([Vec3(p) for p in P[:3]]))
+        bmin, bmax = np.array(qb.extmin), np.array(qb.extmax)
+        out = max(float((bmin - qc.min(0)).max()), float((qc.max(0) - bmax).max()))
+        slack = max(float((qc.min(0) - bmin).max()), float((bmax - qc.max(0)).max()))
+        if out > tol or slack > tol:
+            E = np.array([Q3[0], Q3[0] + 2 / 3 * (Q3[1] - Q3[0]), Q3[2] + 2 / 3 * (Q3[1] - Q3[2]), Q3[2]])  # degree elevation
+            ctx.fail(f"bezier/{_cancel_class(E)}/quadratic_bezier_bbox/{mode}/{n}", f"quadratic {P[:3]}: outside {out:.3g}, slack {slack:.3g}",
+                     {"op": "bezier3", "points": P[:3]})
+
+
+def oracle_algebra(ctx):
+    """the set-theoretic reading of the box operations, evaluated on the real classes with per-axis interval logic
+    written independently of the model (well-formed boxes only: that is what the classes produce)"""
+    S = "O4 box identities"
+    rng = ctx.rng("o4")
+
+    def wf(s):
+        return s is None or all(a <= b for a, b in zip(*s))
+
+    for dim, mk, grid, refs in ((3, mk3, boxes3(ctx), REFS3), (2, mk2, boxes2(ctx), REFS2)):
+        grid = [g for g in grid if wf(g)]
+        refs = [r for r in refs if wf(r)]
+        pairs = [(r, o) for r in refs for o in grid] + [(o, r) for r in refs for o in grid]
+        pairs += [tuple(rng.sample(grid, 2)) for _ in range(ctx.n(2000, 20000))]
+        for sa, sb in pairs:
+            a, b = mk(sa), mk(sb)
+            ctx.count(S, (dim, sa, sb), sa is not None or sb is not None)
+            bad = []
+            u = a.union(b)
+            corners = [c for s in (sa, sb) if s is not None for c in s]
+            if corners:
+                lo = tuple(min(c[i] for c in corners) for i in range(dim))
+                hi = tuple(max(c[i] for c in corners) for i in range(dim))
+                if not u.has_data or tuple(u.extmin) != lo or tuple(u.extmax) != hi:
+                    bad.append(f"union {u} is not the hull {lo} {hi}")
+                if not all(u.inside(c) for c in corners):
+                    bad.append("a corner of an operand is outside the union")
+            elif u.has_data:
+                bad.append("union of two empty boxes has data")
+            if not same_box(u, b.union(a)):
+                bad.append("union is not commutative")
+            if sa is not None and sb is not None:
+                ilo = tuple(max(x, y) for x, y in zip(sa[0], sb[0]))
+                ihi = tuple(min(x, y) for x, y in zip(sa[1], sb[1]))
+                common = all(l <= h for l, h in zip(ilo, ihi))
+                pos = all(l < h for l, h in zip(*sa)) and all(l < h for l, h in zip(*sb))
+                point = all(l == h for l, h in zip(*sa)) or all(l == h for l, h in zip(*sb))
+                if a.has_overlap(b) != common:
+                    bad.append(f"has_overlap={a.has_overlap(b)} but common point exists={common}")
+                if pos and a.has_intersection(b) != all(l < h for l, h in zip(ilo, ihi)):
+                    bad.append(f"has_intersection={a.has_intersection(b)} disagrees with 'open interiors meet'")
+                if a.has_intersection(b) and not a.has_overlap(b):
+                    bad.append("has_intersection without has_overlap")
+                i = a.intersection(b)
+                if a.has_intersection(b):
+                    if not i.has_data or tuple(i.extmin) != ilo or tuple(i.extmax) != ihi:
+                        bad.append(f"intersection {i} is not [{ilo}, {ihi}]")
+                elif i.has_data:
+                    bad.append("intersection has data without has_intersection")
+                if i.has_data and not (a.contains(i) and b.contains(i)):
+                    bad.append("intersection not contained in both operands")
+                sub = all(x <= y for x, y in zip(sa[0], sb[0])) and all(y <= x for x, y in zip(sa[1], sb[1]))
+                if a.contains(b) != sub:
+                    bad.append(f"contains={a.contains(b)} but subset={sub}")
+                if not (a.inside(sa[0]) and a.inside(sa[1])):
+                    bad.append("a corner of a box is not inside it (border points are inside)")
+                if a.has_intersection(b) != b.has_intersection(a) or a.has_overlap(b) != b.has_overlap(a):
+                    bad.append("overlap tests are not symmetric")
+            else:
+                if a.has_overlap(b) or a.has_intersection(b) or a.intersection(b).has_data or a.contains(b) and sb is None:
+                    bad.append("an empty operand overlaps/intersects/is contained")
+            for msg in bad:
+                ctx.fail(f"algebra/{dim}d/{msg.split()[0]}/{spec_str(sa)}/{spec_str(sb)}", f"{dim}d a={sa} b={sb}: {msg}",
+                         {"op": "algebra", "dim": dim, "a": sa, "b": sb})
+        # points, point lists, grow
+        coords = [-1, 0, 0.5, 1, 2, 2.5, 3]
+        for sa in refs + rng.sample(grid, ctx.n(15, 80)):
+            a = mk(sa)
+            for p in itertools.product(coords, repeat=dim):
+                want = sa is not None and all(l <= c <= h for l, c, h in zip(sa[0], p, sa[1]))
+                ctx.count(S, (dim, sa, p), sa is not None)
+                if a.inside(p) != want:
+                    ctx.fail(f"algebra/{dim}d/inside/{spec_str(sa)}/{p}", f"{dim}d box {sa}: inside({p})={a.inside(p)}", {"op": "inside", "dim": dim, "a": sa, "p": list(p)})
+                c = a.copy()
+                c.extend([p])
+                if not c.inside(p) or (sa is not None and not c.contains(a)):
+                    ctx.fail(f"algebra/{dim}d/extend/{spec_str(sa)}/{p}", f"{dim}d box {sa}: extend([{p}]) -> {c}", {"op": "inside", "dim": dim, "a": sa, "p": list(p)})
+            if sa is None:
+                continue
+            size = [h - l for l, h in zip(*sa)]
+            for v in [-3, -1, -0.5, -0.25, 0, 0.25, 1] + [-s / 2 for s in size]:
+                c = a.copy()
+                raises = v < 0 and any(s + 2 * v <= 0 for s in size)
+                try:
+                    c.grow(v)
+                    got = False
+                except ValueError:
+                    got = True
+                ctx.count(S, (dim, sa, "grow", v), True)
+                ok = got == raises and (got or (tuple(c.extmin) == tuple(l - v for l in sa[0]) and tuple(c.extmax) == tuple(h + v for h in sa[1])))
+                if not ok:
+                    ctx.fail(f"algebra/{dim}d/grow/{spec_str(sa)}/{v}", f"{dim}d box {sa}: grow({v}) raised={got} expected raise={raises} result {c}",
+                             {"op": "grow", "dim": dim, "a": sa, "v": v})
+        for _ in range(ctx.n(1500, 15000)):
+            sa = rnd_box(rng, dim)
+            if not wf(sa):
+                continue
+            a = mk(sa)
+            pts = [tuple(float(rng.choice(Q)) for _j in range(dim)) for _i in range(rng.choice([0, 1, 2, 3, 5]))]
+            ctx.count(S, (dim, sa, tuple(pts)), True)
+            allin = a.has_data and bool(pts) and all(a.inside(p) for p in pts)
+            anyin = a.has_data and any(a.inside(p) for p in pts)
+            cls = type(a)
+            if a.all_inside(pts) != allin or a.any_inside(pts) != anyin or a.all_inside(pts) != a.contains(cls(pts)):
+                ctx.fail(f"algebra/{dim}d/all_inside/{spec_str(sa)}/{pts}", f"{dim}d box {sa} points {pts}: all_inside={a.all_inside(pts)} any_inside={a.any_inside(pts)}",
+                         {"op": "pts", "dim": dim, "a": sa, "pts": [list(p) for p in pts]})
+            bp = cls(pts)
+            if pts:
+                lo = tuple(min(p[i] for p in pts) for i in range(dim))
+                hi = tuple(max(p[i] for p in pts) for i in range(dim))
+                if tuple(bp.extmin) != lo or tuple(bp.extmax) != hi:
+                    ctx.fail(f"algebra/{dim}d/extents/{pts}", f"{cls.__name__}({pts}) = {bp}", {"op": "pts", "dim": dim, "a": sa, "pts": [list(p) for p in pts]})
+            elif bp.has_data:
+                ctx.fail(f"algebra/{dim}d/extents/empty", f"{cls.__name__}([]) has data", {"op": "pts", "dim": dim, "a": sa, "pts": []})
+
+
+def oracle(ctx):
+    oracle_algebra(ctx)
+    oracle_docs(ctx)
+    oracle_bezier(ctx)
+
+
+class _ReplayCtx:
+    def __init__(self):
+        self.fails = []
+
+    def fail(self, key, what, rep):
+        self.fails.append(what)
+
+
+def _replay_algebra(sub, r):
+    """re-evaluate the recorded box identity on the current code"""
+    t = lambda s: None if s is None else (tuple(s[0]), tuple(s[1]))
+    dim = r["dim"]
+    mk = mk3 if dim == 3 else mk2
+    sa = t(r.get("a"))
+    a = mk(sa)
+    if r["op"] == "algebra":
+        sb = t(r.get("b"))
+        b = mk(sb)
+        if sa is not None and sb is not None:
+            ilo = tuple(max(x, y) for x, y in zip(sa[0], sb[0]))
+            ihi = tuple(min(x, y) for x, y in zip(sa[1], sb[1]))
+            if a.has_overlap(b) != all(l <= h for l, h in zip(ilo, ihi)):
+                sub.fail("", "has_overlap differs from 'share a point'", r)
+            sub_ = all(x <= y for x, y in zip(sa[0], sb[0])) and all(y <= x for x, y in zip(sa[1], sb[1]))
+            if a.contains(b) != sub_:
+                sub.fail("", "contains differs from subset", r)
+            i = a.intersection(b)
+            if a.has_intersection(b) != i.has_data or (i.has_data and (tuple(i.extmin) != ilo or tuple(i.extmax) != ihi)):
+                sub.fail("", "intersection differs", r)
+            pos = all(l < h for l, h in zip(*sa)) and all(l < h for l, h in zip(*sb))
+            if pos and a.has_intersection(b) != all(l < h for l, h in zip(ilo, ihi)):
+                sub.fail("", "has_intersection differs from 'interiors meet'", r)
+        u = a.union(b)
+        corners = [c for s in (sa, sb) if s is not None for c in s]
+        if corners and not all(u.inside(c) for c in corners):
+            sub.fail("", "corner outside union", r)
+        if not same_box(u, b.union(a)):
+            sub.fail("", "union not commutative", r)
+    elif r["op"] == "inside":
+        p = tuple(r["p"])
+        want = sa is not None and all(l <= c <= h for l, c, h in zip(sa[0], p, sa[1]))
+        c = a.copy()
+        c.extend([p])
+        if a.inside(p) != want or not c.inside(p):
+            sub.fail("", "inside/extend differs", r)
+    elif r["op"] == "grow":
+        v = r["v"]
+        size = [h - l for l, h in zip(*sa)]
+        raises = v < 0 and any(s + 2 * v <= 0 for s in size)
+        try:
+            a.grow(v)
+            got = False
+        except ValueError:
+            got = True
+        if got != raises:
+            sub.fail("", "grow raise differs", r)
+    elif r["op"] == "pts":
+        pts = [tuple(p) for p in r["pts"]]
+        allin = a.has_data and bool(pts) and all(a.inside(p) for p in pts)
+        if a.all_inside(pts) != allin or a.all_inside(pts) != a.contains(type(a)(pts)):
+            sub.fail("", "all_inside differs", r)
+
+
+def replay(ctx, rep):
+    bad = []
+    for f in rep.get("failing_inputs", []):
+        r = f["replay"]
+        try:
+            if r["op"] == "entity":
+                doc, ents = build_doc(r["recipe"])
+                i = r["index"]
+                b, _, _ = check_entity(r["recipe"]["msp"][i], r["recipe"]["blocks"], ents[i], 96)
+                if b:
+                    bad.append(f"{f['key']}: {b[0][1]}")
+            elif r["op"] == "consistency":
+                doc, ents = build_doc(r["recipe"])
+                if r["recipe"].get("hatch"):
+                    h = doc.modelspace().add_hatch()
+                    for path_pts in r["recipe"]["hatch"]:
+                        h.paths.add_polyline_path(path_pts, is_closed=True)
+                    ents = ents + [h]
+                b = check_consistency(ents, r["fast"], ctx.rng("replay"))
+                if b:
+                    bad.append(f"{f['key']}: {b[0]}")
+            elif r["op"] == "fastmix":
+                doc, ents = build_doc(r["recipe"])
+                ok, detail = check_fast_mix(ents)
+                if not ok:
+                    bad.append(f"{f['key']}: {detail}")
+            elif r["op"] == "doc":
+                build_doc(r["recipe"])
+            elif r["op"] in ("algebra", "inside", "grow", "pts"):
+                sub = _ReplayCtx()
+                _replay_algebra(sub, r)
+                bad += [f"{f['key']}: {w}" for w in sub.fails]
+            elif r["op"] in ("bezier", "bezier3"):
+                import numpy as np
+                from ezdxf.math import Bezier4P, Bezier3P, Vec3, cubic_bezier_bbox, quadratic_bezier_bbox
+
+                P = r["points"]
+                A = np.array(P, dtype=float)
+                ts = np.linspace(0, 1, 2001)[:, None]
+                if len(P) == 4:
+                    c = (1 - ts) ** 3 * A[0] + 3 * (1 - ts) ** 2 * ts * A[1] + 3 * (1 - ts) * ts ** 2 * A[2] + ts ** 3 * A[3]
+                    b = cubic_bezier_bbox(Bezier4P([Vec3(p) for p in P]))
+                else:
+                    c = (1 - ts) ** 2 * A[0] + 2 * (1 - ts) * ts * A[1] + ts ** 2 * A[2]
+                    b = quadratic_bezier_bbox(Bezier3P([Vec3(p) for p in P]))
+                span = max(1e-9, float((A.max(0) - A.min(0)).max()))
+                tol = 1e-5 * span + 1e-9 * max(1.0, float(np.abs(A).max()))
+                dev = max(float(np.abs(np.array(b.extmin) - c.min(0)).max()), float(np.abs(np.array(b.extmax) - c.max(0)).max()))
+                if dev > tol:
+                    bad.append(f"{f['key']}: deviation {dev:.3g}")
+        except Exception as e:  # noqa
+            bad.append(f"{f['key']}: {type(e).__name__}: {e}")
+    return (not bad, "; ".join(bad) or "all recorded failing inputs pass now")
